@@ -180,8 +180,10 @@ func (cl *Loader) load(file string) (config map[string]interface{}, err error) {
 				} else {
 					raw, err = cl.loadDir(importFile)
 				}
+				// err is local to this block: report it here, the check
+				// below never sees it
 				if err != nil {
-					logrus.Error(err)
+					return nil, fmt.Errorf("load import error: %v", err)
 				}
 			}
 			if err != nil {
